@@ -1,4 +1,5 @@
 import FxVerif.Model.C15
+import FxVerif.Proofs.C15Lookup
 /-!
 # C15 — the SDK keeper functions, interpreted statement by statement, are the one-piece functions of the model
 
@@ -340,7 +341,10 @@ theorem activateRun_eq (s : State) (p : Proposal) : activateRun s p = activate s
   have e4 : ∀ l, activateStep l "customPeriod" =
       (match getCustom l.s.custom (propTypeP l.p.msgs) with
        | some c => { l with period := c.votingPeriod }
-       | none => l) := fun _ => rfl
+       | none => l) := fun l => by
+    have : activateStep l "customPeriod" = { l with period := customPeriodOf l.s.custom l.p.msgs l.period } := rfl
+    rw [this, customPeriodOf_eq]
+    cases getCustom l.s.custom (propTypeP l.p.msgs) <;> rfl
   have e5 : ∀ l, activateStep l "endTime=start+period" = { l with endT := l.p.votingStart + l.period } := fun _ => rfl
   have e6 : ∀ l, activateStep l "setVotingEnd" = { l with p := { l.p with votingEnd := l.endT } } := fun _ => rfl
   have e7 : ∀ l, activateStep l "setStatusVoting" = { l with p := { l.p with status := .voting } } := fun _ => rfl
@@ -353,9 +357,8 @@ theorem activateRun_eq (s : State) (p : Proposal) : activateRun s p = activate s
   rw [e4]
   have h1 : activationDefaultByExpedited = true := rfl
   have h2 : activationUsesCustomPeriod = true := rfl
-  have h3 : customPeriodLookupOk = true := rfl
   have h4 : activationQueueKeyIsVotingEnd = true := rfl
-  simp only [activate, activationQueueTime, activationPeriod, h1, h2, h3, h4, Bool.true_and, Bool.and_true, if_true]
+  simp only [activate, activationQueueTime, activationPeriod, customPeriodOf_eq, h1, h2, h4, Bool.true_and, Bool.and_true, if_true]
   cases hc : getCustom s.custom (propTypeP p.msgs) with
   | none => cases he : p.expedited <;> simp
   | some c => simp
@@ -490,7 +493,7 @@ def voteSpec (s : State) (pid : Nat) (voter : Addr) (opts : List (Opt × Nat)) :
 then `Votes.Set` under (proposal, voter) -/
 theorem vote_eq (s : State) (pid : Nat) (voter : Addr) (opts : List (Opt × Nat)) : vote s pid voter opts = voteSpec s pid voter opts := by
   unfold vote voteSpec addVoteRun
-  rw [sdkAddVoteSteps_order]
+  rw [sdkAddVoteSteps_order, voteWeightedAccepts_eq]
   by_cases ho : (!optsValid opts) = true
   · simp only [ho, if_true]
   · simp only [ho, Bool.false_eq_true, if_false]
